@@ -63,7 +63,9 @@ var bodyBytes = map[routemodel.Body]string{
 	routemodel.BodyMalformed: `{"elements":[`,
 }
 
-func (c routeCase) prefixed() bool { return c.Mount == "prefix" || c.Mount == "prefix-mux" }
+func (c routeCase) prefixed() bool {
+	return c.Mount == "prefix" || c.Mount == "prefix-mux" || c.Mount == "prefix-addtomux"
+}
 
 // wire renders the request as HTTP/1.1 bytes.
 func (c routeCase) wire() []byte {
@@ -717,7 +719,7 @@ func product(t *testing.T, rec *stats.Recorder, mount string, every int, space s
 	for _, ft := range family() {
 		tk := hx.J(ft.roots)
 		for _, p := range pathShapes(ft.roots) {
-			if (mount == "mux" || mount == "prefix-mux") && (p == "" || strings.Contains(p, "//") || strings.Contains(p, "..")) {
+			if (mount == "mux" || mount == "prefix-mux" || mount == "prefix-addtomux") && (p == "" || strings.Contains(p, "//") || strings.Contains(p, "..")) {
 				continue // ServeMux redirects paths it considers unclean; not Rest.li routing
 			}
 			for _, v := range verbs {
@@ -791,6 +793,12 @@ func TestC05MountPrefix(t *testing.T) {
 func TestC05MountPrefixMux(t *testing.T) {
 	skipIfReplaying(t)
 	product(t, stats.For("C05"), "prefix-mux", 19, "1/19 sample of the product under NewPrefixedServer behind a ServeMux pattern")
+}
+
+// (added last: NewPrefixedServer registered on a ServeMux through its own AddToMux - the patterns carry the prefix)
+func TestC05MountPrefixAddToMux(t *testing.T) {
+	skipIfReplaying(t)
+	product(t, stats.For("C05"), "prefix-addtomux", 23, "1/23 sample of the product under NewPrefixedServer registered with AddToMux")
 }
 
 func TestC05MountHTTP(t *testing.T) {
@@ -1176,7 +1184,7 @@ func rapidMount(t *testing.T, mount string, allowMalformed bool) {
 		roots := genNodes(rt, rootNames, 0, "t")
 		r, tun := genRequest(rt, roots, allowMalformed)
 		c := routeCase{Tree: roots, Req: r, Tunnelled: tun, Filters: genFilters(rt), Mount: mount}
-		if mount == "mux" || mount == "prefix-mux" {
+		if mount == "mux" || mount == "prefix-mux" || mount == "prefix-addtomux" {
 			if r.Path == "" || strings.Contains(r.Path, "//") || strings.Contains(r.Path, "/.") {
 				rt.Skip("ServeMux redirects unclean paths")
 			}
@@ -1200,6 +1208,9 @@ func TestC05RapidBadQuery(t *testing.T)  { rapidMount(t, "bare", true) }
 func TestC05RapidMux(t *testing.T)       { rapidMount(t, "mux", false) }
 func TestC05RapidPrefix(t *testing.T)    { rapidMount(t, "prefix", false) }
 func TestC05RapidPrefixMux(t *testing.T) { rapidMount(t, "prefix-mux", false) }
+func TestC05RapidPrefixAddToMux(t *testing.T) {
+	rapidMount(t, "prefix-addtomux", false)
+}
 
 // subtractTree removes from late what base already registers (a method cannot be registered twice) and aligns the
 // kind of same-named nodes (a path segment cannot be registered with two kinds).
